@@ -2,13 +2,14 @@
    Each command of a connection is applied by one store operation (Resp/Handler.v, C10) that runs
    strictly inside the interval between the arrival of the request and the sending of the reply, and
    a connection has at most one command in flight.  Reading the threads of Conc/StoreLTS.v as
-   connections, the client-visible history is the store history with wider intervals, and the commit
-   points stay inside the wider intervals.
+   connections, the client-visible history is the store history with wider intervals; widening an
+   interval keeps a history accepted by the commit-point monitor (theorems 4 and 5), so the
+   client-visible history is linearizable whenever the store-level one is.
    Partial: tokio's scheduling of handlers and blocking threads is not modelled; the check measures
    real client-side histories and decides them with a linearizability checker. *)
 From Coq Require Import List Arith.
 Import ListNotations.
-From BC Require Import Conc.Lin Conc.StoreLTS Conc.StoreSafe Conc.StoreLin.
+From BC Require Import Conc.Lin Conc.Widen Conc.StoreLTS Conc.StoreSafe Conc.StoreLin.
 
 (* 1. Generic: any execution whose operations return the value computed at their commit point is
       linearizable, with the commit order as witness (replay reproduces all results; completed
@@ -40,6 +41,23 @@ Print Assumptions C11_store_linearizable.
 Theorem C11_no_panic : forall cap es s t, lrun rule_fixed (linit cap) es = Some s -> thr s t <> PPanicked.
 Proof. exact no_panic. Qed.
 Print Assumptions C11_no_panic.
+
+(* 4. Widening.  What a client observes of a command is a wider interval than the store operation that
+      executes it: the request is sent before the store is invoked, the reply arrives after it returned.
+      Moving the invocation of an operation earlier past any events of other threads keeps the history
+      accepted by the monitor ... *)
+Theorem C11_invocation_earlier : forall (S O R : Type) (spec : S -> O -> S * R) (Req : R -> R -> bool) m pre mid t o post,
+  Forall (fun e => Widen.ev_thread O R e <> t) mid ->
+  accepted S O R spec Req m (pre ++ mid ++ Lin.IInv O R t o :: post) -> accepted S O R spec Req m (pre ++ Lin.IInv O R t o :: mid ++ post).
+Proof. exact invocation_earlier. Qed.
+Print Assumptions C11_invocation_earlier.
+
+(* 5. ... and so does moving its return later. *)
+Theorem C11_return_later : forall (S O R : Type) (spec : S -> O -> S * R) (Req : R -> R -> bool) m pre t r mid post,
+  Forall (fun e => Widen.ev_thread O R e <> t) mid ->
+  accepted S O R spec Req m (pre ++ Lin.IRet O R t r :: mid ++ post) -> accepted S O R spec Req m (pre ++ mid ++ Lin.IRet O R t r :: post).
+Proof. exact return_later. Qed.
+Print Assumptions C11_return_later.
 
 (* Non-vacuity: two connections, a SET on one racing a GET on the other (the GET's lookup falls between
    the SET's append and its publication): the schedule runs, and the commit order puts the GET first. *)
